@@ -8,3 +8,5 @@ Definition case := tcase.
 Definition check (c : case) : bool := tcheck c.
 Definition oracle (c : case) : bool := implb (conforms c) (sound_run c).
 Definition model_out (c : case) := tmodel_out c.
+Definition finding_class (c : case) : N := treason c.
+Definition domain_ok (c : case) : bool := negb (N.eqb (treason c) 0) || oracle c.
